@@ -79,6 +79,10 @@ func edMap(s *workceptor.StatusFileData) map[string]interface{} {
 
 // decodeRec projects a loaded StatusFileData onto the counters and checks that it is a record
 // some update wrote as a whole (all fields describe the same value of the shared counter).
+// outW is the writer index of the round's STDoutWriter goroutine (-1: none).  In such rounds
+// StdoutSize belongs to that writer (it is its "own counter") and nobody else touches it.
+var outW = -1
+
 func decodeRec(s *workceptor.StatusFileData, nw int) rec {
 	r := rec{Own: make([]uint64, nw), Whole: true}
 	fail := func(f string, a ...interface{}) {
@@ -98,6 +102,10 @@ func decodeRec(s *workceptor.StatusFileData, nw int) rec {
 	}
 	sum := uint64(0)
 	for w := 0; w < nw; w++ {
+		if w == outW {
+			r.Own[w] = uint64(s.StdoutSize)
+			continue
+		}
 		if r.Own[w], okn = toU(ed[fmt.Sprintf("w%d", w)]); !okn {
 			fail("own counter %d is %v", w, ed[fmt.Sprintf("w%d", w)])
 		}
@@ -106,7 +114,7 @@ func decodeRec(s *workceptor.StatusFileData, nw int) rec {
 	if s.WorkType != "c14" || s.State != 1 {
 		fail("WorkType=%q State=%d", s.WorkType, s.State)
 	}
-	if uint64(s.StdoutSize) != r.Shared {
+	if outW < 0 && uint64(s.StdoutSize) != r.Shared {
 		fail("StdoutSize=%d but shared=%d", s.StdoutSize, r.Shared)
 	}
 	if s.Detail != pad(r.Shared) {
@@ -138,6 +146,7 @@ type hSpec struct {
 	File       string  `json:"file"`
 	NW         int     `json:"nw"`
 	Gs         []gSpec `json:"gs"`
+	Out        int     `json:"out"` // 1 + writer index of the STDoutWriter goroutine, 0 if none
 	LockThread bool    `json:"lockthread"`
 	Marker     bool    `json:"marker"`
 	StartAt    int64   `json:"start_at"`
@@ -166,6 +175,7 @@ func helperOps(args []string) {
 	Must(err)
 	var sp hSpec
 	Must(json.Unmarshal(b, &sp))
+	outW = sp.Out - 1
 	// error paths of the StatusFileData methods log through workceptor.MainInstance
 	nc := netceptor.New(context.Background(), "c14helper")
 	w, err := workceptor.New(context.Background(), nc, filepath.Join(filepath.Dir(sp.File), "helper-data"))
@@ -189,6 +199,7 @@ func helperOps(args []string) {
 			key := fmt.Sprintf("w%d", g.W)
 			persist := &workceptor.StatusFileData{}
 			opn := 0
+			var sw *workceptor.STDoutWriter
 			for _, c := range g.Ops {
 				sfd := persist
 				if !g.Persist {
@@ -197,6 +208,20 @@ func helperOps(args []string) {
 				opn++
 				res := opRes{Kind: string(c), T0: time.Now().UnixNano()}
 				switch c {
+				case 'W':
+					// the in-process stdout path of the Kubernetes/Python work types:
+					// STDoutWriter.Write -> saveStdoutSize(unitdir, bytes written so far)
+					if sw == nil {
+						var err error
+						if sw, err = workceptor.NewStdoutWriter(workceptor.FileSystem{}, filepath.Dir(sp.File)); err != nil {
+							res.Err = err.Error()
+							break
+						}
+					}
+					if _, err := sw.Write([]byte(strings.Repeat("o", 1+opn%5))); err != nil {
+						res.Err = err.Error()
+					}
+					res.Seen = &rec{Shared: uint64(sw.Size())} // bytes written so far
 				case 'S':
 					// Save writes the receiver as it is; the helper only stamps a fresh tag (and, for a
 					// receiver that never held a record, the fields of the zero counters)
@@ -227,7 +252,10 @@ func helperOps(args []string) {
 						own, _ := toU(ed[key])
 						ed["shared"], ed[key], ed["tag"] = sh+1, own+1, res.Tag
 						s.ExtraData, s.State, s.WorkType = ed, 1, "c14"
-						s.StdoutSize, s.Detail = int64(sh+1), pad(sh+1)
+						s.Detail = pad(sh + 1)
+						if outW < 0 {
+							s.StdoutSize = int64(sh + 1)
+						}
 					})
 					if err != nil {
 						res.Err = err.Error()
@@ -285,6 +313,7 @@ type round struct {
 	NW      int
 	Specs   []hSpec
 	Precre  bool // the file holds the zero record before the run
+	Out     int  // 1 + writer index of the STDoutWriter goroutine, 0 if none
 	Reports []hReport
 }
 
@@ -689,7 +718,195 @@ func runStress(c *Ctx, im *Impl, cf *CaseFile, rd *round, idx int) {
 	im.Sample(map[string]interface{}{"kind": "stress", "round": rd.progs(), "updates": T, "saves": nSaves, "records_seen": len(loads), "final": fin, "cross_process_alternations": alternations})
 }
 
-var c14Totals struct{ updates, loads, saves, alternations, traceEvents, blockedLocks int }
+// genOutRound: a round with the in-process stdout path: one goroutine is the unit's STDoutWriter
+// (only 'W' operations), the others update and load.
+func genOutRound(r *Rng, dir string, procs, gor, nops int) *round {
+	rd := &round{Dir: dir, File: filepath.Join(dir, "status"), NW: procs * gor, Precre: true}
+	rd.Out = 1 + r.Intn(rd.NW)
+	w := 0
+	for p := 0; p < procs; p++ {
+		sp := hSpec{File: rd.File, NW: rd.NW, Out: rd.Out}
+		for g := 0; g < gor; g++ {
+			n := nops/2 + r.Intn(nops/2+1)
+			var sb strings.Builder
+			for i := 0; i < n; i++ {
+				switch {
+				case w == rd.Out-1:
+					sb.WriteByte('W')
+				case r.Chance(25):
+					sb.WriteByte('L')
+				default:
+					sb.WriteByte('U') // like UpdateBasicStatus of the unit's monitor: changes everything but the size
+				}
+			}
+			sp.Gs = append(sp.Gs, gSpec{W: w, Ops: sb.String(), Persist: r.Bool()})
+			w++
+		}
+		rd.Specs = append(rd.Specs, sp)
+	}
+	return rd
+}
+
+func runStressOut(c *Ctx, im *Impl, cf *CaseFile, rd *round, idx int) {
+	outW = rd.Out - 1
+	defer func() { outW = -1 }()
+	files := rd.prepare()
+	var wg sync.WaitGroup
+	errs := make([]error, len(files))
+	for i, f := range files {
+		wg.Add(1)
+		go func(i int, f string) {
+			defer wg.Done()
+			ctx, cancel := context.WithTimeout(context.Background(), 300*time.Second)
+			defer cancel()
+			out, err := exec.CommandContext(ctx, os.Args[0], "ops", f).Output()
+			if err != nil {
+				errs[i] = fmt.Errorf("helper %d: %v", i, err)
+			}
+			_ = os.WriteFile(f+".out", out, 0o600)
+		}(i, f)
+	}
+	wg.Wait()
+	replay := rd.progs()
+	replay["kind"], replay["stdout_writer"] = "stress with STDoutWriter", outW
+	for _, e := range errs {
+		if e != nil {
+			im.Violate("helper process died during concurrent status updates: "+e.Error(), "c14-helper-died", replay)
+			return
+		}
+	}
+	if err := rd.collect(files); err != nil {
+		im.Violate("helper report unreadable: "+err.Error(), "c14-helper-died", replay)
+		return
+	}
+	bad := false
+	violate := func(what, sig string) {
+		bad = true
+		im.Violate(what, sig, replay)
+	}
+	type upd struct {
+		w, proc int
+		pre     rec
+	}
+	var upds []upd
+	var seen []*rec
+	var sizes []uint64 // cumulative bytes after each Write, in program order
+	nUpdBy := make([]uint64, rd.NW)
+	for pi, rep := range rd.Reports {
+		for gi, rs := range rep.Res {
+			w := rd.Specs[pi].Gs[gi].W
+			for oi, o := range rs {
+				who := fmt.Sprintf("operation %d (%s) of writer %d", oi, o.Kind, w)
+				if o.Err != "" {
+					sig := map[string]string{"U": "c14-update-error", "W": "c14-update-error", "L": "c14-load-error"}[o.Kind]
+					violate(who+" failed under concurrency: "+o.Err, sig)
+					continue
+				}
+				switch o.Kind {
+				case "W":
+					sizes = append(sizes, o.Seen.Shared)
+				case "U":
+					if o.Seen == nil {
+						violate("an update found the status file empty although a record had been stored ("+who+")", "c14-torn-read")
+						continue
+					}
+					if !o.Seen.Whole {
+						violate("an update was handed a torn record ("+who+"): "+o.Seen.Why, "c14-torn-read")
+					}
+					upds = append(upds, upd{w, pi, *o.Seen})
+					nUpdBy[w]++
+					seen = append(seen, o.Seen)
+				case "L":
+					if !o.Seen.Whole {
+						violate("a concurrent Load returned a torn record ("+who+"): "+o.Seen.Why, "c14-torn-read")
+					}
+					seen = append(seen, o.Seen)
+				}
+			}
+		}
+	}
+	sort.SliceStable(upds, func(i, j int) bool { return upds[i].pre.Shared < upds[j].pre.Shared })
+	T := uint64(len(upds))
+	for i, u := range upds {
+		if u.pre.Shared != uint64(i) {
+			violate(fmt.Sprintf("lost update: %d updates applied but the %d-th smallest value of the shared counter an update started from is %d (an increment was overwritten by a stale record)", T, i, u.pre.Shared), "c14-lost-update")
+			break
+		}
+		if i > 0 && u.pre.Own[outW] < upds[i-1].pre.Own[outW] {
+			violate(fmt.Sprintf("StdoutSize went back from %d to %d between two consecutive updates", upds[i-1].pre.Own[outW], u.pre.Own[outW]), "c14-lost-update")
+		}
+	}
+	fin, err := rd.finalRec()
+	if err != nil {
+		im.Violate("final record unreadable: "+err.Error(), "c14-final-unreadable", replay)
+		return
+	}
+	if !fin.Whole {
+		violate("final record is torn: "+fin.Why, "c14-torn-read")
+	}
+	total := uint64(0)
+	if len(sizes) > 0 {
+		total = sizes[len(sizes)-1]
+	}
+	if !bad {
+		if fin.Shared != T {
+			violate(fmt.Sprintf("final shared counter %d after %d updates: saveStdoutSize or an update overwrote an increment", fin.Shared, T), "c14-lost-update")
+		}
+		for w := range nUpdBy {
+			if w != outW && fin.Own[w] != nUpdBy[w] {
+				violate(fmt.Sprintf("writer %d applied %d updates but its own counter is %d (wiped by another writer)", w, nUpdBy[w], fin.Own[w]), "c14-field-wiped")
+			}
+		}
+		if fin.Own[outW] != total {
+			violate(fmt.Sprintf("StdoutSize ends as %d but %d bytes were written through the STDoutWriter", fin.Own[outW], total), "c14-field-wiped")
+		}
+	}
+	// the order of all writes: increments by the counter they saw, every saveStdoutSize before the
+	// first increment that saw its size
+	var order []string
+	k := 0
+	emitW := func(upTo uint64) {
+		for k < len(sizes) && sizes[k] <= upTo {
+			order = append(order, fmt.Sprintf("(%s, Some %d)", CoqNat(outW), sizes[k]))
+			k++
+		}
+	}
+	alternations := 0
+	for i, u := range upds {
+		emitW(u.pre.Own[outW])
+		order = append(order, fmt.Sprintf("(%s, None)", CoqNat(u.w)))
+		if i > 0 && upds[i-1].proc != u.proc {
+			alternations++
+		}
+	}
+	emitW(^uint64(0))
+	var coqSeen []string
+	for _, r := range seen {
+		if r.Whole && len(coqSeen) < 500 {
+			coqSeen = append(coqSeen, coqRec(r))
+		}
+	}
+	label := fmt.Sprintf("stress round %d with STDoutWriter (writer %d): %d processes, %d updates, %d stdout writes (%d bytes), %d records seen, %d cross-process alternations", idx, outW, len(rd.Specs), T, len(sizes), total, len(seen), alternations)
+	cf.Add(fmt.Sprintf("CStressO %s %s %s %s %s", CoqNat(rd.NW), rd.coqFile0(), CoqList(order), coqRec(fin), CoqList(coqSeen)), label)
+	// non-trivial: size writes really fall between the increments
+	interleaved := 0
+	for i := 1; i < len(upds); i++ {
+		if upds[i].pre.Own[outW] != upds[i-1].pre.Own[outW] {
+			interleaved++
+		}
+	}
+	im.Count(label, interleaved >= 3 && alternations >= len(upds)/10 && !bad)
+	im.Hist("stress:with-stdout-writer")
+	c14Totals.updates += int(T)
+	c14Totals.loads += len(seen)
+	c14Totals.outWrites += len(sizes)
+	c14Totals.alternations += alternations
+	if idx < 1 {
+		im.Sample(map[string]interface{}{"kind": "stress with STDoutWriter", "round": rd.progs(), "updates": T, "stdout_writes": len(sizes), "bytes": total, "final": fin})
+	}
+}
+
+var c14Totals struct{ updates, loads, saves, outWrites, alternations, traceEvents, blockedLocks int }
 
 // ---------- (a) strace ----------
 
@@ -1080,7 +1297,7 @@ func runTrace(c *Ctx, im *Impl, cf *CaseFile, rd *round, idx int) {
 
 func runC14(c *Ctx) {
 	im := NewImpl("C14", c.Seed, c.Tier)
-	im.Rule = "trace rounds: 1-3 OS processes x 1-3 thread-locked goroutines run random programs of 2-6 UpdateFullStatus/Load/Save calls (two thirds of the rounds with Saves) under one strace; non-trivial = at least 2 processes and at least one flock call had to wait. stress rounds: 2-4 processes x 2-4 goroutines x 10-60 operations (about 30% Loads, some goroutines 90%; in half of the rounds 60% of the goroutines also Save what they last read or wrote, 10-20% of their operations); non-trivial = lock ownership alternates between OS processes in at least 10% of consecutive updates and Loads observed at least 3 distinct intermediate values of the shared counter. Half of the goroutines keep one StatusFileData for their whole program, 60% of the rounds start from an existing record, the others from no file."
+	im.Rule = "trace rounds: 1-3 OS processes x 1-3 thread-locked goroutines run random programs of 2-6 UpdateFullStatus/Load/Save calls (two thirds of the rounds with Saves) under one strace; non-trivial = at least 2 processes and at least one flock call had to wait. stress rounds: 2-4 processes x 2-4 goroutines x 10-60 operations (about 30% Loads, some goroutines 90%; in half of the rounds 60% of the goroutines also Save what they last read or wrote, 10-20% of their operations); non-trivial = lock ownership alternates between OS processes in at least 10% of consecutive updates and Loads observed at least 3 distinct intermediate values of the shared counter. every fourth stress round is followed by a round with the in-process stdout path: one goroutine is the unit's STDoutWriter (Write -> saveStdoutSize) against 3-8 updating/loading goroutines in 2-3 processes; non-trivial = the size changed between consecutive increments at least 3 times. Half of the goroutines keep one StatusFileData for their whole program, 60% of the rounds start from an existing record, the others from no file."
 	cf := &CaseFile{Dir: c.Out, Prop: "C14", Imports: []string{"Model.Lock"}, CaseType: "lock_case", CheckFn: "lock_check", PerShard: 40}
 	tmp, err := os.MkdirTemp("", "c14-")
 	Must(err)
@@ -1090,7 +1307,7 @@ func runC14(c *Ctx) {
 		fmt.Fprintln(os.Stderr, "keeping", tmp)
 	}
 	r := c.Rng
-	nTrace, nStress, maxOps := 10, 40, 40
+	nTrace, nStress, maxOps := 8, 28, 40
 	if c.Thorough() {
 		nTrace, nStress, maxOps = 60, 300, 120
 	}
@@ -1119,8 +1336,13 @@ func runC14(c *Ctx) {
 		rd := genRound(r, filepath.Join(tmp, fmt.Sprintf("s%d", i)), r.Range(2, 4), r.Range(2, 4), r.Range(10, maxOps), 30, []int{0, 0, 10, 20}[r.Intn(4)], r.Chance(30), false)
 		runStress(c, im, cf, rd, i)
 		_ = os.RemoveAll(rd.Dir)
+		if i%4 == 3 { // the in-process stdout path racing the updaters
+			ro := genOutRound(r, filepath.Join(tmp, fmt.Sprintf("o%d", i)), r.Range(2, 3), r.Range(2, 3), r.Range(20, maxOps+20))
+			runStressOut(c, im, cf, ro, i/4)
+			_ = os.RemoveAll(ro.Dir)
+		}
 	}
-	im.Extra["totals"] = map[string]int{"stress_updates": c14Totals.updates, "stress_loads": c14Totals.loads, "stress_saves": c14Totals.saves,
+	im.Extra["totals"] = map[string]int{"stress_updates": c14Totals.updates, "stress_loads": c14Totals.loads, "stress_saves": c14Totals.saves, "stress_stdout_writes": c14Totals.outWrites,
 		"cross_process_lock_alternations": c14Totals.alternations, "trace_syscalls_projected": c14Totals.traceEvents, "trace_blocked_flock_calls": c14Totals.blockedLocks}
 	Must(cf.Write())
 	Must(im.Write(c.Out))
